@@ -136,3 +136,96 @@ theorem removeLong_chain_bounds (s : Text) (L : Nat) (fs : List Filter) (ts : Li
   exact key fs _ hb t ht
 
 end TantivyModel.Tok
+
+namespace TantivyModel.Tok
+
+/-- the filters that only drop tokens (remove-long, alphanumeric-only, stop words) -/
+def Filter.Drops : Filter → Prop
+  | .removeLong _ => True
+  | .alnumOnly => True
+  | .stop _ => True
+  | _ => False
+
+theorem apply_drops_sublist (f : Filter) (hf : f.Drops) (ts : List Token) :
+    (f.apply ts).Sublist ts := by
+  induction ts with
+  | nil => simp [Filter.apply]
+  | cons a l ih =>
+    simp only [Filter.apply, List.flatMap_cons] at *
+    cases f with
+    | removeLong n =>
+      simp only [Filter.onToken]; split
+      · exact ih.cons₂ a
+      · exact ih.cons a
+    | alnumOnly =>
+      simp only [Filter.onToken]; split
+      · exact ih.cons₂ a
+      · exact ih.cons a
+    | stop ws =>
+      simp only [Filter.onToken]; split
+      · exact ih.cons a
+      · exact ih.cons₂ a
+    | lower g => exact absurd hf (by simp [Filter.Drops])
+    | fold g => exact absurd hf (by simp [Filter.Drops])
+    | stem g => exact absurd hf (by simp [Filter.Drops])
+    | split g => exact absurd hf (by simp [Filter.Drops])
+
+theorem chain_drops_sublist (fs : List Filter) (hfs : ∀ f ∈ fs, f.Drops) :
+    ∀ ts : List Token, (applyChain fs ts).Sublist ts := by
+  induction fs with
+  | nil => intro ts; exact List.Sublist.refl _
+  | cons f fs ih =>
+    intro ts
+    exact (ih (fun g hg => hfs g (List.mem_cons_of_mem _ hg)) (f.apply ts)).trans
+      (apply_drops_sublist f (hfs f List.mem_cons_self) ts)
+
+end TantivyModel.Tok
+
+namespace TantivyModel.Snip
+
+/-- `max_by` keeps a candidate of maximal score -/
+theorem selectBest_max (frags : List Frag) (f : Frag) (h : selectBest frags = some f) :
+    ∀ g ∈ frags, g.score ≤ f.score := by
+  cases frags with
+  | nil => simp [selectBest] at h
+  | cons a as =>
+    simp only [selectBest, Option.some.injEq] at h
+    subst h
+    have key : ∀ (l : List Frag) (x : Frag),
+        x.score ≤ (l.foldl (fun x y => if better x y then x else y) x).score ∧
+        ∀ g ∈ l, g.score ≤ (l.foldl (fun x y => if better x y then x else y) x).score := by
+      intro l
+      induction l with
+      | nil => intro x; simp
+      | cons y ys ih =>
+        intro x
+        simp only [List.foldl_cons]
+        obtain ⟨i1, i2⟩ := ih (if better x y then x else y)
+        have hxy : x.score ≤ (if better x y then x else y).score ∧
+            y.score ≤ (if better x y then x else y).score := by
+          by_cases hb : better x y = true
+          · rw [if_pos hb]
+            refine ⟨Nat.le_refl _, ?_⟩
+            unfold better at hb
+            split at hb
+            · simp only [decide_eq_true_eq] at hb; omega
+            · rename_i he; simp only [ne_eq, Decidable.not_not] at he; omega
+          · rw [if_neg hb]
+            refine ⟨?_, Nat.le_refl _⟩
+            unfold better at hb
+            split at hb
+            · rename_i he; simp only [decide_eq_true_eq] at hb; omega
+            · rename_i he; simp only [ne_eq, Decidable.not_not] at he; omega
+        refine ⟨Nat.le_trans hxy.1 i1, ?_⟩
+        intro g hg
+        simp only [List.mem_cons] at hg
+        rcases hg with hg | hg
+        · subst hg; exact Nat.le_trans hxy.2 i1
+        · exact i2 g hg
+    intro g hg
+    simp only [List.mem_cons] at hg
+    rcases hg with hg | hg
+    · subst hg; exact (key as g).1
+    · exact (key as a).2 g hg
+
+end TantivyModel.Snip
